@@ -468,7 +468,7 @@ crate::harnesses! {
     #[kani::stub(alloc::fmt::format, stub_format)]
     #[kani::stub(std::string::ToString::to_string, stub_to_string)]
     #[kani::unwind(8)]
-    c09_delta_tab_u32_le (quick, "BufBitReader<LE, strict MemWordReader<u32>>, K=4", "data truncated after any number of words 0..=K, any Inv_r state; op delta_tab: Ok with the right value iff the bits it needs lie within the data") => strict_step_le::<u32, _, 4, {OP_DELTA_TT}>;
+    c09_delta_tab_u32_le (thorough, "BufBitReader<LE, strict MemWordReader<u32>>, K=4", "data truncated after any number of words 0..=K, any Inv_r state; op delta_tab: Ok with the right value iff the bits it needs lie within the data") => strict_step_le::<u32, _, 4, {OP_DELTA_TT}>;
     #[kani::stub(alloc::fmt::format, stub_format)]
     #[kani::stub(std::string::ToString::to_string, stub_to_string)]
     #[kani::unwind(7)]
@@ -492,7 +492,7 @@ crate::harnesses! {
     #[kani::stub(alloc::fmt::format, stub_format)]
     #[kani::stub(std::string::ToString::to_string, stub_to_string)]
     #[kani::unwind(8)]
-    c09_zeta3_tab_u32_le (quick, "BufBitReader<LE, strict MemWordReader<u32>>, K=4", "data truncated after any number of words 0..=K, any Inv_r state; op zeta3_tab: Ok with the right value iff the bits it needs lie within the data") => strict_step_le::<u32, _, 4, {OP_ZETA3_T}>;
+    c09_zeta3_tab_u32_le (thorough, "BufBitReader<LE, strict MemWordReader<u32>>, K=4", "data truncated after any number of words 0..=K, any Inv_r state; op zeta3_tab: Ok with the right value iff the bits it needs lie within the data") => strict_step_le::<u32, _, 4, {OP_ZETA3_T}>;
     #[kani::stub(alloc::fmt::format, stub_format)]
     #[kani::stub(std::string::ToString::to_string, stub_to_string)]
     #[kani::unwind(7)]
@@ -628,11 +628,11 @@ crate::harnesses! {
     #[kani::stub(alloc::fmt::format, stub_format)]
     #[kani::stub(std::string::ToString::to_string, stub_to_string)]
     #[kani::unwind(7)]
-    c09_ub_gamma_tab_le (quick, "BitReader<LE> (unbuffered) over a strict MemWordReader<u64>, K=3", "data truncated after any number of words 0..=3, any bit position; op gamma_tab: Ok with the right value iff the bits it needs lie within the data") => ub_strict_step_le::<_, 3, {OP_GAMMA_T}>;
+    c09_ub_gamma_tab_le (thorough, "BitReader<LE> (unbuffered) over a strict MemWordReader<u64>, K=3", "data truncated after any number of words 0..=3, any bit position; op gamma_tab: Ok with the right value iff the bits it needs lie within the data") => ub_strict_step_le::<_, 3, {OP_GAMMA_T}>;
     #[kani::stub(alloc::fmt::format, stub_format)]
     #[kani::stub(std::string::ToString::to_string, stub_to_string)]
     #[kani::unwind(7)]
-    c09_ub_delta_tab_be (quick, "BitReader<BE> (unbuffered) over a strict MemWordReader<u64>, K=3", "data truncated after any number of words 0..=3, any bit position; op delta_tab: Ok with the right value iff the bits it needs lie within the data") => ub_strict_step_be::<_, 3, {OP_DELTA_TT}>;
+    c09_ub_delta_tab_be (thorough, "BitReader<BE> (unbuffered) over a strict MemWordReader<u64>, K=3", "data truncated after any number of words 0..=3, any bit position; op delta_tab: Ok with the right value iff the bits it needs lie within the data") => ub_strict_step_be::<_, 3, {OP_DELTA_TT}>;
     #[kani::stub(alloc::fmt::format, stub_format)]
     #[kani::stub(std::string::ToString::to_string, stub_to_string)]
     #[kani::unwind(7)]
@@ -644,7 +644,7 @@ crate::harnesses! {
     #[kani::stub(alloc::fmt::format, stub_format)]
     #[kani::stub(std::string::ToString::to_string, stub_to_string)]
     #[kani::unwind(7)]
-    c09_ub_zeta3_tab_le (quick, "BitReader<LE> (unbuffered) over a strict MemWordReader<u64>, K=3", "data truncated after any number of words 0..=3, any bit position; op zeta3_tab: Ok with the right value iff the bits it needs lie within the data") => ub_strict_step_le::<_, 3, {OP_ZETA3_T}>;
+    c09_ub_zeta3_tab_le (thorough, "BitReader<LE> (unbuffered) over a strict MemWordReader<u64>, K=3", "data truncated after any number of words 0..=3, any bit position; op zeta3_tab: Ok with the right value iff the bits it needs lie within the data") => ub_strict_step_le::<_, 3, {OP_ZETA3_T}>;
     #[kani::stub(alloc::fmt::format, stub_format)]
     #[kani::stub(std::string::ToString::to_string, stub_to_string)]
     #[kani::unwind(7)]
